@@ -16,7 +16,7 @@ func runC12(res *lib.Result, tier string, seed int64, args []string) error {
 	if tier == "thorough" {
 		nProg = 3000
 	}
-	res.Rule = "generated programs as in C05 and the repository's own testdata/define files; for EVERY identifier occurrence p the four real answers are cross-compared WITHOUT an oracle: (i) every reference of p resolves (definition) to the declaration p resolves to, (ii) p is among the references found from its declaration, (iii) documentHighlight(p) = references(p), (iv) hover names the identifier and says 'local' exactly when the definition is a local declaration; an inconsistency is excused only if the name has an occurrence in a C05/C06 finding class (computed by the driver); second family: workspaces of several files (a module table returned by one file and required through differently named locals by others; ---@type-annotated locals / globals aliased by un-annotated variables of the opposite kind), every identifier token of every file, the same four comparisons across files; non-trivial = p has a definition; distinct by (program, position)"
+	res.Rule = "generated programs as in C05 and the repository's own testdata/define files; for EVERY identifier occurrence p the four real answers are cross-compared WITHOUT an oracle: (i) every reference of p resolves (definition) to the declaration p resolves to, (ii) p is among the references found from its declaration, (iii) documentHighlight(p) = references(p), (iv) hover names the identifier and says 'local' exactly when the definition is a local declaration, (v) references(p) = references(declaration of p) as sets (refs_class); an inconsistency is excused only if the name has an occurrence in a C05/C06 finding class (computed by the driver); second family: workspaces of several files (a module table returned by one file and required through differently named locals by others; ---@type-annotated locals / globals aliased by un-annotated variables of the opposite kind), every identifier token of every file, the same four comparisons across files; non-trivial = p has a definition; distinct by (program, position)"
 	drv, err := lib.StartDriver()
 	if err != nil {
 		return err
@@ -128,6 +128,15 @@ func runC12(res *lib.Result, tier string, seed int64, args []string) error {
 					}
 					if !found {
 						problems = append(problems, fmt.Sprintf("(ii) the position is not among the references of its own declaration %s", d))
+					}
+					// (v) Props/C12 refs_class: whichever occurrence the user asks from, the answer is the same set
+					var dl2 []string
+					for _, r := range drefs {
+						dl2 = append(dl2, locOfRange(r.Range))
+					}
+					sort.Strings(dl2)
+					if found && strings.Join(dl2, " ") != strings.Join(rl, " ") {
+						problems = append(problems, fmt.Sprintf("(v) references asked from here [%s] differ from references asked from the declaration %s [%s]", strings.Join(rl, " "), d, strings.Join(dl2, " ")))
 					}
 				}
 			}
